@@ -256,6 +256,15 @@ func runPattern(ctx *core.Ctx, bin string, pi int, p pattern, spin bool) {
 	if missing == 0 && pi%3 == 0 {
 		// "a crash loses only unacknowledged commands" includes the next start: loading the log
 		// (tens of kilobytes here, possibly with a torn last command) must not cut acknowledged ones
+		if pi%6 == 3 {
+			// a crash on a file system that had preallocated the next blocks: zeros behind the data
+			if f, err := os.OpenFile(s.AOFPath(), os.O_APPEND|os.O_WRONLY, 0); err == nil {
+				f.Write(make([]byte, 4096+r.Intn(9000)))
+				f.Close()
+				replay["zero_padding_appended"] = true
+				ctx.Count("restarts_on_zero_padded_log", 1)
+			}
+		}
 		s2, err := s.Restart()
 		if err != nil {
 			ctx.Violation("restart-fails-after-kill", "the server does not start on the log left by kill -9: "+err.Error(), replay)
